@@ -372,12 +372,19 @@ impl TryFrom<super::safe::SchemaMut> for Schema {
 						}
 					}),
 					SafeSchemaType::Record(record) => SchemaNode::Record(Record {
-						per_name_lookup: record
-							.fields
-							.iter()
-							.enumerate()
-							.map(|(i, v)| (v.name.clone(), i))
-							.collect(),
+						per_name_lookup: {
+							let mut per_name_lookup = HashMap::with_capacity(record.fields.len());
+							for (i, field) in record.fields.iter().enumerate() {
+								if per_name_lookup.insert(field.name.clone(), i).is_some() {
+									return Err(SchemaError::msg(format_args!(
+										"Record {} declares field {:?} more than once",
+										record.name.fully_qualified_name(),
+										field.name
+									)));
+								}
+							}
+							per_name_lookup
+						},
 						fields: {
 							let mut fields = Vec::with_capacity(record.fields.len());
 							for field in record.fields {
